@@ -10,7 +10,7 @@ their path sets are equal after rewriting.
 """
 from .expr import LocalEnv, canon, show
 from .facts import kids, short, walk
-from .tables import enum_paths, value_literals
+from .tables import enum_paths, value_literals, norm_literal
 
 
 def rewrite(t, fn):
@@ -158,12 +158,7 @@ class Summ:
             if t2 is not None:
                 t = t2
             # one spelling per atomic decision: no leading negation, `!=` as a failed `==`
-            while isinstance(t, tuple) and len(t) == 2 and t[0] == '!':
-                t, pol = t[1], not pol
-            if isinstance(t, tuple) and len(t) == 3 and t[0] == '!=':
-                t, pol = ('==',) + t[1:], not pol
-            if isinstance(t, tuple) and len(t) == 3 and t[0] == '<=':
-                t, pol = ('<', t[2], t[1]), not pol
+            t, pol = norm_literal(t, pol)
             if t in ('TRUE', 'FALSE') and pol is False:
                 t, pol = ('FALSE' if t == 'TRUE' else 'TRUE'), True
             return ('if', t, pol)
